@@ -199,6 +199,11 @@ func c03Main(r *run.Runner) {
 		"L | where x > 0 | join kind=inner (R) on k | project x, y | where x > 0 | join kind=leftouter (C | project w) on $left.x == $right.w | take 1",
 		"L | where x > 0 | join kind=innerunique (R) on k | project x, y | join kind=leftouter (C | project w) on $left.y == $right.w | limit 1",
 		"L | extend z = x | join kind=inner (R | project rk = k, y) on $left.k == $right.rk | join kind=leftouter (C | project ck = k, w) on $left.k == $right.ck | take 1 | project x, y, w",
+		// operators directly after a join that sort by a column and then define a column of that name again
+		"L | join kind=inner (R | project rk = k, y) on $left.k == $right.rk | sort by y desc | extend y = 0 - y | take 1",
+		"L | join kind=leftouter (R | project rk = k, y) on $left.k == $right.rk | sort by x asc | extend x = y | take 2 | project rk",
+		"L | join kind=inner (R | project rk = k, y) on $left.k == $right.rk | where y > 0 | sort by y | extend z = 0 - y | take 1",
+		"L | join (R | project rk = k, y) on $left.k == $right.rk | extend y2 = y * 2 | where y2 > 2 | sort by y2 asc | take 1",
 		// an `as` name whose only reader is a join nested inside another right-hand side
 		"L | where x > 0 | as T2 | where x > 1 | join kind=inner (R | project rk = k, y | join kind=leftouter (T2 | project k2 = k, x2 = x) on $left.rk == $right.k2 | project rk, y, x2) on $left.k == $right.rk | project x, y, x2 | sort by x, y, x2",
 		"L | as T3 | project k, x | join (R | project rk = k, y | join kind=inner (C | project ck = k, w | join kind=inner (T3 | project k3 = k, x3 = x) on $left.ck == $right.k3 | project ck, w, x3) on $left.rk == $right.ck | project rk, y, w, x3) on $left.k == $right.rk | project x, y, w, x3 | sort by x, y, w, x3",
